@@ -8,6 +8,10 @@ import (
 	"github.com/enbility/spine-go/model"
 )
 
+// the use case data of all entities is stored in the NodeManagement feature of the device,
+// changing it is a read-modify-write cycle that must not interleave with another one
+var useCaseDataMux sync.Mutex
+
 type EntityLocal struct {
 	*Entity
 	device   api.DeviceLocalInterface
@@ -131,6 +135,9 @@ func (r *EntityLocal) AddUseCaseSupport(
 	useCaseAvailable bool,
 	scenarios []model.UseCaseScenarioSupportType,
 ) {
+	useCaseDataMux.Lock()
+	defer useCaseDataMux.Unlock()
+
 	nodeMgmt := r.device.NodeManagement()
 
 	data, err := LocalFeatureDataCopyOfType[*model.NodeManagementUseCaseDataType](nodeMgmt, model.FunctionTypeNodeManagementUseCaseData)
@@ -171,6 +178,9 @@ func (r *EntityLocal) SetUseCaseAvailability(
 	actor model.UseCaseActorType,
 	useCaseName model.UseCaseNameType,
 	available bool) {
+	useCaseDataMux.Lock()
+	defer useCaseDataMux.Unlock()
+
 	nodeMgmt := r.device.NodeManagement()
 
 	data, err := LocalFeatureDataCopyOfType[*model.NodeManagementUseCaseDataType](nodeMgmt, model.FunctionTypeNodeManagementUseCaseData)
@@ -193,6 +203,9 @@ func (r *EntityLocal) RemoveUseCaseSupport(
 	actor model.UseCaseActorType,
 	useCaseName model.UseCaseNameType,
 ) {
+	useCaseDataMux.Lock()
+	defer useCaseDataMux.Unlock()
+
 	nodeMgmt := r.device.NodeManagement()
 
 	data, err := LocalFeatureDataCopyOfType[*model.NodeManagementUseCaseDataType](nodeMgmt, model.FunctionTypeNodeManagementUseCaseData)
@@ -212,6 +225,9 @@ func (r *EntityLocal) RemoveUseCaseSupport(
 
 // Remove all usecases
 func (r *EntityLocal) RemoveAllUseCaseSupports() {
+	useCaseDataMux.Lock()
+	defer useCaseDataMux.Unlock()
+
 	nodeMgmt := r.device.NodeManagement()
 
 	data, err := LocalFeatureDataCopyOfType[*model.NodeManagementUseCaseDataType](nodeMgmt, model.FunctionTypeNodeManagementUseCaseData)
